@@ -121,7 +121,7 @@ class MapState:
 
 
 class State:
-    __slots__ = ('guards', 'aux', 'ghost', 'loops', 'frames', 'fmeta', 'objs', 'maps', 'zone', 'events', 'unwinding', 'depth',
+    __slots__ = ('pendload', 'arrinv', 'hitpairs', 'guards', 'aux', 'ghost', 'loops', 'frames', 'fmeta', 'objs', 'maps', 'zone', 'events', 'unwinding', 'depth',
                  'next_id', 'assumed', 'notes', 'keep', 'pairs')
 
     def __init__(self):
@@ -137,6 +137,9 @@ class State:
         self.assumed = ()
         self.notes = ()
         self.keep = frozenset()   # heap cells that model caller-owned memory (never collected)
+        self.pendload = None      # one half of a pair being read field by field from a local array element
+        self.arrinv = {}          # local array tag -> ('hit', mid, request-array tag) | None: what every pair stored there satisfied
+        self.hitpairs = ()        # ((slot term, request index term, mid, request-array tag), ...) read back from such arrays
         self.guards = ()          # decided comparisons between entry-state quantities (arguments, entry lens, N): kept apart at joins
         self.aux = ()             # ((hi, lo, d), ...): auxiliary difference terms, d == hi - lo exactly (DESIGN 14.14)
         self.ghost = {}           # loop key -> (term, container ids): ghost counter of kept elements (count schemas)
@@ -162,6 +165,9 @@ class State:
         s.ghost = dict(self.ghost)
         s.aux = self.aux
         s.guards = self.guards
+        s.arrinv = dict(self.arrinv)
+        s.hitpairs = self.hitpairs
+        s.pendload = self.pendload
         return s
 
     def new_id(self, prefix):
